@@ -92,7 +92,7 @@ func runC20(ctx *core.Ctx) {
 		"non-trivial = at least 5 results were delivered and compared; distinct by (query, mode, api, rows) hash")
 	ctx.Assume("structural deep equality including key sets; Go value types are compared exactly for caller data",
 		"paired runs feed both instances from concurrent goroutines; the solo run is the oracle for the paired one, joined per row id")
-	n := ctx.N(120, 3000)
+	n := ctx.N(390, 9000)
 	ctx.Cases("c20", n, 2*workers(), func(i int, r *rand.Rand) {
 		q := c20Queries[i%len(c20Queries)]
 		c := &c20Case{CaseRef: core.CaseRef{Stream: "c20", Index: i}, Query: q.Name, SQL: q.SQL}
